@@ -88,6 +88,9 @@ pub fn unify(state: &mut TypeCheckerState, watchdog: &DynWatchdog) -> Result<()>
                 Err(Error::StoppedByWatchdog).locate(location)?;
             }
 
+            // Bump our polling counter for every iteration, including the ones we skip
+            counter += 1;
+
             // If there are no inferences for this type variable, go to the next one.
             if inferences.is_empty() {
                 continue;
@@ -123,9 +126,6 @@ pub fn unify(state: &mut TypeCheckerState, watchdog: &DynWatchdog) -> Result<()>
 
             // Finally, we have to update the forest's inferences for each type variable
             forest.set_data(&ty_var, InferenceSet::from([current]));
-
-            // Bump our polling counter
-            counter += 1;
         }
 
         // When we get to the end of that loop, we need to insert the new type variables
